@@ -321,7 +321,11 @@ func (e *Engine) solveAll(runs []*FnRun, keep func(*Obligation) bool) {
 					j.o.Result = &res
 					continue
 				}
-				res := runQuery(text, e.opts.Timeout, e.opts.Thorough)
+				to := e.opts.Timeout
+				if j.o.Kind == "canary" {
+					to = 3
+				}
+				res := runQuery(text, to, e.opts.Thorough && j.o.Kind != "canary")
 				j.o.Result = &res
 			}
 		}()
